@@ -1,0 +1,9 @@
+//go:build verif
+
+package eval
+
+// VerifCacheOff makes every cache lookup miss and every store a no-op, so the same
+// binary can run a program with memoization off (verification harness only).
+var VerifCacheOff bool
+
+func verifCacheOff() bool { return VerifCacheOff }
